@@ -42,8 +42,6 @@ def modelled(cfg, ex):
     for ln in ex:
         if '"e":"SB"' in ln:
             steps = True
-        if '"e":"Call"' in ln and '"k":"gap"' in ln:
-            return False              # gaps are not modelled
         if '"e":"Cb"' in ln and '"act":"none"' not in ln:
             return False
         if '"e":"End"' in ln and ('"san":true' in ln or '"stall":true' in ln):
@@ -66,7 +64,7 @@ def accept(ctx, files, want=modelled, nshards=None, timeout=1500):
         if not exs:
             continue
         cfgp = os.path.join(d, "drift_%d.cfg" % autod)
-        open(cfgp, "w").write("CONSTANTS MaxTx = 100000  MaxCalls = 100000000  MaxAvail = 2  AutoDestroy = %s  FixD4 = TRUE  TraceMode = TRUE\n CbFail = {}\n Known <- KnownSet\n"
+        open(cfgp, "w").write("CONSTANTS MaxTx = 100000  MaxCalls = 100000000  MaxAvail = 2  AutoDestroy = %s  FixD4 = TRUE  TraceMode = TRUE  Gaps = FALSE\n CbFail = {}\n Known <- KnownSet\n"
                               "SPECIFICATION TSpec\nINVARIANT NotAccepted\nCONSTRAINT Progress\nPOSTCONDITION Report\nCHECK_DEADLOCK FALSE\n" % ("TRUE" if autod else "FALSE"))
         for si, chunk in enumerate(vlib.chunks(exs, max(1, nshards // len([g for g in groups.values() if g])))):
             jobs.append((cfgp, "%d_%d" % (autod, si), chunk))
